@@ -53,7 +53,23 @@ def main():
     dn = 0
     for profile in (["release", "debug"] if (a.tier == "thorough" or os.environ.get("VERIF_C18_DEBUG")) else ["release"]):
         binary = c.build_harness(profile)
-        if binary and c.run_harness(binary, "c18", casefile, timeout=6000):
+        nb = len(c.broken)
+        ran = binary and c.run_harness(binary, "c18", casefile, timeout=6000)
+        if binary and not ran and os.path.exists(casefile):
+            # the harness died: the last announced case that has no result line killed the process
+            last_try, done = None, set()
+            for line in open(casefile, errors="replace"):
+                f = line.split()
+                if line.startswith("c18try ") and len(f) > 3:
+                    last_try = (f[1], f[2], f[3], line.partition("#")[2].strip())
+                elif line.startswith("c18 ") and len(f) > 3:
+                    done.add((f[1], f[2], f[3]))
+            if last_try and last_try[:3] not in done:
+                del c.broken[nb:]
+                case = {"entry": ENTRY.get(last_try[0], last_try[0]), "base": last_try[1], "mutation": last_try[2], "desc": last_try[3], "build": profile}
+                c.violation(case, "Err for malformed input", "process aborted (allocation failure / abort)",
+                            "entry=%s outcome=abort (the decoder killed the process: unbounded allocation) %s" % (case["entry"], re.sub(r"\d+", "N", last_try[3])))
+        if ran:
             n1, d1, f1, s1 = scan(c, casefile)
             n += n1; fails += [dict(f, build=profile) for f in f1]; samples += s1
             for k, v in d1.items():
